@@ -38,6 +38,6 @@ SPEC = dict(
         "go-flags is third-party code: modelled by an abstraction (see trusted_base), tied by the differential run only. The theorems are about every argument vector of the model; they transfer to the implementation as far as the abstraction holds (no mismatch in the exhaustive small scope and the random vectors).",
         "the model's MayExec leaves open whether the selected command's option parsing succeeds; the property only needs which command could execute",
         "GO_FLAGS_COMPLETION is not set in snapd's environment (go-flags' completion mode is outside the model)",
-        "which uid is passed to Run is the daemon's business (api_snapctl.go takes it from the peer credentials, C26)",
+        "which uid is passed to Run: api_snapctl.go takes it from the peer credentials; proved and driven on the C26 side (C26_snapctl_uid_is_peer, driver kind snapctl)",
     ],
 )
